@@ -19,7 +19,11 @@ Record flags := mkFl {
   fl_version : bool; fl_ts : bool; fl_cs : bool; fl_uid : bool; fl_usid : bool; fl_visible : bool }.
 
 Record dnode_d := mkDN { dn_id : Z; dn_lat : Z; dn_lon : Z; dn_info : info_d; dn_tags : list (Z * Z) }.
-Record dense_d := mkDense { de_nodes : list dnode_d; de_hasinfo : bool; de_cols : flags; de_haskv : bool }.
+(* de_omit: a group without nodes, without denseinfo and without keys_vals is written as the
+   EMPTY DenseNodes message (protobuf encoders do not write empty packed fields); otherwise the
+   id / lat / lon columns are always written (with length 0 when there are no nodes) *)
+Record dense_d := mkDense { de_nodes : list dnode_d; de_hasinfo : bool; de_cols : flags; de_haskv : bool;
+                            de_omit : bool }.
 
 Record way_d := mkWayD {
   wd_id : Z; wd_hasinfo : bool; wd_fields : flags; wd_info : info_d; wd_tags : list (Z * Z);
@@ -144,11 +148,14 @@ Definition enc_info (fl : flags) (i : info_d) : msg :=
 Definition kv_of (n : dnode_d) : list Z :=
   flat_map (fun t => [enc_int (fst t); enc_int (snd t)]) (dn_tags n) ++ [0].
 
+Definition dense_omitted (d : dense_d) : bool :=
+  de_omit d && match de_nodes d with [] => true | _ => false end && negb (de_hasinfo d) && negb (de_haskv d).
+
 Definition enc_dense (d : dense_d) : msg :=
   let ns := de_nodes d in
   let inf := map dn_info ns in
   let fl := de_cols d in
-  [(1, WPacked (deltas64 0 (map dn_id ns)))] ++
+  opt (negb (dense_omitted d)) (1, WPacked (deltas64 0 (map dn_id ns))) ++
   opt (de_hasinfo d) (5, WMsg (
     opt (fl_version fl) (1, WPacked (map (fun i => enc_int (id_version i)) inf)) ++
     opt (fl_ts fl) (2, WPacked (deltas64 0 (map id_ts inf))) ++
@@ -156,8 +163,8 @@ Definition enc_dense (d : dense_d) : msg :=
     opt (fl_uid fl) (4, WPacked (deltas32 0 (map id_uid inf))) ++
     opt (fl_usid fl) (5, WPacked (deltas32 0 (map id_usid inf))) ++
     opt (fl_visible fl) (6, WPacked (map (fun i => enc_bool (id_visible i)) inf)))) ++
-  [(8, WPacked (deltas64 0 (map dn_lat ns)))] ++
-  [(9, WPacked (deltas64 0 (map dn_lon ns)))] ++
+  opt (negb (dense_omitted d)) (8, WPacked (deltas64 0 (map dn_lat ns))) ++
+  opt (negb (dense_omitted d)) (9, WPacked (deltas64 0 (map dn_lon ns))) ++
   opt (de_haskv d) (10, WPacked (flat_map kv_of ns)).
 
 Definition has_tags (ts : list (Z * Z)) (force : bool) : bool :=
